@@ -519,3 +519,50 @@ Proof.
     destruct (prec <? ndigits (dq_int (number (pscale a s)) (- EPSILON))) eqn:E; [reflexivity|lia]. }
   reflexivity.
 Qed.
+
+(* ------------------------------------------------------------------ soundness of the six operators, assembled *)
+Lemma pcmp_sound a b e :
+  let s := smaller_prefix a b in
+  e <= pexp a -> e <= pexp b -> e <= s - EPSILON ->
+  10 ^ (s - EPSILON - e) < Z.abs (vat e a - vat e b) ->
+  (pcmp OLt a b = true <-> vat e a < vat e b) /\ (pcmp OGt a b = true <-> vat e b < vat e a) /\
+  pcmp OEq a b = false /\ pcmp ONe a b = true /\
+  (pcmp OLe a b = true <-> vat e a < vat e b) /\ (pcmp OGe a b = true <-> vat e b < vat e a).
+Proof.
+  intros s Ha Hb Hs H. pose proof (rkey_spec a b e Ha Hb Hs) as K. cbv zeta in K. fold s in K.
+  set (D := 10 ^ (s - EPSILON - e)) in *. assert (0 < D) as PD by (apply p10_pos'; lia).
+  rewrite !pcmp_key, K. cbn [fst snd int_op].
+  destruct (Z_lt_le_dec (vat e a) (vat e b)) as [C|C].
+  - pose proof (rhe_gap (vat e a) (vat e b) D PD ltac:(lia)). lia.
+  - pose proof (rhe_gap (vat e b) (vat e a) D PD ltac:(lia)). lia.
+Qed.
+
+Lemma pcmp_same_value a b e : e <= pexp a -> e <= pexp b -> vat e a = vat e b ->
+  pcmp OEq a b = true /\ pcmp OLe a b = true /\ pcmp OGe a b = true /\
+  pcmp OLt a b = false /\ pcmp OGt a b = false /\ pcmp ONe a b = false.
+Proof.
+  intros Ha Hb H. pose proof (pcmp_eq_of_eq a b e Ha Hb H) as Q. rewrite !pcmp_key in *. cbn [int_op] in *. lia.
+Qed.
+
+Lemma pcmp_never_inverts a b e : e <= pexp a -> e <= pexp b -> vat e a <= vat e b ->
+  pcmp OGt a b = false /\ pcmp OLe a b = true.
+Proof.
+  intros Ha Hb H. pose proof (pcmp_le_of_le a b e Ha Hb H) as Q. rewrite !pcmp_key in *. cbn [int_op] in *. lia.
+Qed.
+
+Lemma pcmp_trichotomy a b :
+  (pcmp OLt a b = true /\ pcmp OEq a b = false /\ pcmp OGt a b = false) \/
+  (pcmp OLt a b = false /\ pcmp OEq a b = true /\ pcmp OGt a b = false) \/
+  (pcmp OLt a b = false /\ pcmp OEq a b = false /\ pcmp OGt a b = true).
+Proof. rewrite !pcmp_key. apply int_op_trichotomy. Qed.
+
+Lemma pcmp_rel a b :
+  pcmp OLe a b = pcmp OLt a b || pcmp OEq a b /\
+  pcmp OGe a b = pcmp OGt a b || pcmp OEq a b /\
+  pcmp ONe a b = negb (pcmp OEq a b) /\
+  pcmp OLe a b = negb (pcmp OGt a b) /\
+  pcmp OGe a b = negb (pcmp OLt a b).
+Proof. rewrite !pcmp_key. apply int_op_rel. Qed.
+
+Lemma pcmp_refl a : pcmp OEq a a = true.
+Proof. apply (pcmp_eq_of_eq a a (pexp a)); lia. Qed.
